@@ -88,7 +88,7 @@ def op_cases(tier):
 
 def cases(tier, seed):
     oc = op_cases(tier)
-    return [{"ops": oc[i:i + PACK]} for i in range(0, len(oc), PACK)]
+    return [{"ops": oc[i:i + PACK], "refs": r} for r in (False, True) for i in range(0, len(oc), PACK)]
 
 
 # ----------------------------------------------------------------------------------------------
@@ -219,7 +219,11 @@ def check_call(case, idx, lab, vals, bo, rec, add):
         add("signature", "declared parameter has no argument in the generated signature", f"{rec['unknown_args']} vs {rec.get('params')} | {where}")
         return
     if rec.get("build_error"):
-        raise HarnessError(f"could not build arguments: {rec['build_error']} | {where}")
+        import re
+
+        m = re.sub(r"'[^']*'", "'*'", rec["build_error"])
+        add("signature", f"a well-typed value of the declared parameter type cannot be passed (annotation mismatch): {m[:80]}", f"{rec['build_error']} | {where}")
+        return
     reqs = rec.get("requests", [])
     if rec.get("kind") == "raise" and not reqs:
         import re
@@ -325,7 +329,8 @@ def check_call(case, idx, lab, vals, bo, rec, add):
 def run_case(case):
     cs = case["ops"]
     stats = {}
-    res = driven.drive_pack(cs, make_calls_for, "bundled", stats)
+    refs = bool(case.get("refs"))
+    res = driven.drive_pack(cs, make_calls_for, "bundled", stats, refs=refs)
     found = []
     seen = set()
     nontriv = []
@@ -338,7 +343,7 @@ def run_case(case):
 
         def add(clause, disc, detail, c=c):
             sig = f"C04|{clause}|{disc}"
-            key = ops.describe(c)
+            key = ops.describe(c) + ("|via-component-refs" if refs else "")
             if (sig, key) not in seen:
                 seen.add((sig, key))
                 found.append({"sig": sig, "key": key, "msg": detail})
@@ -360,7 +365,7 @@ def run_case(case):
             check_call(c, idx, lab, vals, bo, rec, add)
             ncalls += 1
             if vals or bo is not None:
-                nontriv.append(f"{ops.describe(c)}|{lab}")
+                nontriv.append(f"{ops.describe(c)}|{lab}|refs={refs}")
         outcomes.add("driven")
     return {"findings": found, "evals": ncalls, "nontrivial": nontriv, "nontrivial_multi": True,
             "outcome": "+".join(sorted(outcomes)) + (":finding" if found else ""),
